@@ -139,8 +139,8 @@ Print Assumptions C20_realizable_complete_partial.
     net and markings are exactly those built from that flow (or absent right after a reload) — never a scaled flow's, never
     borrowed tokens —, and a stored certificate of a plain search is a correct firing sequence of that flow. *)
 Theorem C20_history_state :
-  forall (V : list N) (E : list edge) (flow : list Z) (ops : list pr_op),
-  let st := pr_exec V E (pr_loaded flow) ops in
+  forall (cf : pr_config) (V : list N) (E : list edge) (flow : list Z) (ops : list pr_op),
+  let st := pr_exec cf V E (pr_loaded flow) ops in
   let fl := last_flow flow ops in
   pr_flow st = fl /\
   pr_built st = (if built_after false ops then Some (build_petri_net_from_flow V E fl) else None) /\
@@ -155,18 +155,18 @@ Print Assumptions C20_history_state.
     history has built — gives to the same call, and it leaves the same flow, net and markings behind.
     (The [certificate] property returns the stored field, characterised by [C20_history_state].) *)
 Theorem C20_history_independence :
-  forall (V : list N) (E : list edge) (flow : list Z) (ops1 : list pr_op) (op : pr_op) (ops2 : list pr_op),
-  let st := pr_exec V E (pr_loaded flow) ops1 in
-  let fr := fresh V E (last_flow flow ops1) (built_after false ops1) in
-  nth_error (pr_run V E (pr_loaded flow) (ops1 ++ op :: ops2)) (length ops1) =
-    Some (snd (pr_step V E st op), fst (pr_step V E st op)) /\
-  snd (pr_step V E st op) =
+  forall (cf : pr_config) (V : list N) (E : list edge) (flow : list Z) (ops1 : list pr_op) (op : pr_op) (ops2 : list pr_op),
+  let st := pr_exec cf V E (pr_loaded flow) ops1 in
+  let fr := fresh cf V E (last_flow flow ops1) (built_after false ops1) in
+  nth_error (pr_run cf V E (pr_loaded flow) (ops1 ++ op :: ops2)) (length ops1) =
+    Some (snd (pr_step cf V E st op), fst (pr_step cf V E st op)) /\
+  snd (pr_step cf V E st op) =
     match op with
     | OpCert => ACert (pr_cert st)
-    | _ => snd (pr_step V E fr op)
+    | _ => snd (pr_step cf V E fr op)
     end /\
-  pr_flow (fst (pr_step V E st op)) = pr_flow (fst (pr_step V E fr op)) /\
-  pr_built (fst (pr_step V E st op)) = pr_built (fst (pr_step V E fr op)).
+  pr_flow (fst (pr_step cf V E st op)) = pr_flow (fst (pr_step cf V E fr op)) /\
+  pr_built (fst (pr_step cf V E st op)) = pr_built (fst (pr_step cf V E fr op)).
 Proof. exact main_history_independence. Qed.
 Print Assumptions C20_history_independence.
 
